@@ -29,6 +29,18 @@ CHECKS = {
          "Every (buffer, start offset) pair of the prefix tree (5.5e8 quick, 8e9 thorough), every graph of k cells (label, terminator, reserved type, overlapping label, pointer to any cell) from every start cell, and every label-length combination giving an expanded length 248..=260 directly or through a pointer is decoded by Name::parse (via the cfg hook) and by Packet::parse (as question, owner and RDATA name) and compared with an independent decoder: same labels, same resume cursor, label/name limits, rejection of cycles, outside pointers, reserved label types and over-long names, and acceptance of every name that decodes with backward pointers only.",
          "Small-scope argument: the decoder's branches depend on label type bits, length vs remaining bytes, pointer target vs position, and the running expanded size; the alphabet has a member of each class and the bound lets two pointers and three labels interact. Forward pointers may be rejected.",
          "DESIGN.md section 3, C06"),
+ "C02": ("exhaustive enumeration of a deviation-bounded product of reference packets (all 39 typed variants + unknown/NULL/empty RDATA x classes x cache-flush x TTL boundaries x name shapes x header/OPT/section shapes), each built through public constructors, serialised, parsed by the real code and compared field by field with the reference description",
+         "Every packet of the declared space (4.6e4 quick, 4.9e5 thorough) goes through to_lib -> build_bytes_vec -> Packet::parse -> observe and must equal the reference packet in id, flags, opcode, rcode, EDNS data, and every question/record field; values are byte-asymmetric and at integer/length boundaries so that width, sign, byte-order, swapped-field and bit-mixing slips show. The space is enumerated completely.",
+         "Observation uses cfg-guarded read-only byte views (Label, CharacterString, TXT). Domain restricted to wire-representable values (stated in the evidence).",
+         "DESIGN.md section 3, C02"),
+ "C09": ("exhaustive enumeration of EDNS parameter products (named rcodes x all 256 versions, all 65536 UDP sizes, option lists up to 3 options, OPT at every additional-section index) through the real build and parse code, build output inspected by an independent RFC 6891 walker and parse input produced by an independent RFC encoder",
+         "Build side: for every enumerated (rcode, version, size, options, other records) the real serialiser's bytes are walked independently: exactly one TYPE 41 record in the additional section counted once in ARCOUNT, root owner, CLASS = size, TTL bytes = ext-rcode, version, 0, 0, RDATA = option triples, header rcode = low 4 bits. Parse side: RFC-layout messages from the reference encoder (so a self-consistent but non-RFC layout cannot pass) with the OPT at every index; the parsed packet must expose size, version, options and the recombined 12-bit rcode with the OPT removed from the additional records.",
+         "The 16 flag bits of the OPT TTL are not exposed by the library; they are written as zero and not compared. Unnamed 12-bit rcodes are expected to surface as Reserved.",
+         "DESIGN.md section 3, C09"),
+ "C10": ("exhaustive enumeration of deviation-bounded value tuples over an independent declarative RDATA schema for each of the 39 typed variants, each parsed from an independent reference encoding and built by the real code, RDATA compared byte for byte, plus complete rejection families",
+         "For every type, every tuple with <=2 fields away from byte-asymmetric defaults (full product for short schemas) is encoded by the reference encoder and parsed by the real parser (alone and followed by another record): the observed fields must equal the tuple; the same tuple built through constructors must produce exactly the reference RDATA under the IANA type code. All LOC versions 1..=255, all SVCB/HTTPS key sequences over {0,1,2}^<=3, all NSEC window sequences over {0,1,2,255}^<=3 and every inner length set one past the RDATA end must be rejected. The reference schemas are validated at start-up against 30 dnspython-generated sample records.",
+         "Trusts the schema transcription in mc/src/refmodel/schema.rs (cross-checked against the sample records). OPT is covered by C09. Forms the library's data model cannot express are outside the checked domain.",
+         "DESIGN.md section 3, C10"),
 }
 NOT_YET = {}
 
